@@ -8,13 +8,19 @@ import (
 var Epoch0 = time.Unix(1700000000, 0)
 
 // Now returns the virtual time.
+//
+//go:norace
 func Now() time.Time { return Epoch0.Add(time.Duration(NowNS())) }
 
 // SetSeqNow sets the virtual clock used outside executions.
+//
+//go:norace
 func SetSeqNow(ns int64) { seqNow = ns }
 
 // Advance moves the virtual clock forward by d without running timers; only meaningful for
 // single-threaded (sequential) harnesses that own the clock.
+//
+//go:norace
 func Advance(d time.Duration) {
 	if rt == nil {
 		seqNow += int64(d)
@@ -27,6 +33,8 @@ func Advance(d time.Duration) {
 }
 
 // SetNow sets the virtual clock of the current execution (sequential harnesses only).
+//
+//go:norace
 func SetNow(ns int64) {
 	if rt == nil {
 		seqNow = ns
@@ -43,6 +51,7 @@ type rtimer struct {
 	inList bool
 }
 
+//go:norace
 func (r *Runtime) nextTimer() *rtimer {
 	var best *rtimer
 	j := 0
@@ -66,6 +75,8 @@ func (r *Runtime) nextTimer() *rtimer {
 
 // fireAt advances the clock to just after `when` and fires every timer due at that instant, in
 // creation order. The clock skids 1ns past the expiry instant, as a real clock read after expiry does.
+//
+//go:norace
 func (r *Runtime) fireAt(when int64) {
 	if when+1 > r.now {
 		r.now = when + 1
@@ -89,6 +100,7 @@ func (r *Runtime) fireAt(when int64) {
 	}
 }
 
+//go:norace
 func (r *Runtime) arm(t *rtimer, d time.Duration) {
 	if d < 0 {
 		d = 0
@@ -115,6 +127,8 @@ type ChanTimer struct {
 }
 
 // NewTimer mirrors time.NewTimer.
+//
+//go:norace
 func NewTimer(d time.Duration) *ChanTimer {
 	r := rt
 	tm := &ChanTimer{}
@@ -136,6 +150,8 @@ func NewTimer(d time.Duration) *ChanTimer {
 }
 
 // AfterFunc mirrors time.AfterFunc.
+//
+//go:norace
 func AfterFunc(d time.Duration, f func()) *ChanTimer {
 	r := rt
 	tm := &ChanTimer{fn: f}
@@ -152,6 +168,7 @@ func AfterFunc(d time.Duration, f func()) *ChanTimer {
 	return tm
 }
 
+//go:norace
 func (tm *ChanTimer) fire(now int64) {
 	tm.h = mix(tm.h, H{uint64(now), 0}, 0x92)
 	tm.C.h = mix(tm.C.h, tm.h, 0x93)
@@ -168,6 +185,7 @@ func (tm *ChanTimer) fire(now int64) {
 	tm.expired = true
 }
 
+//go:norace
 func (tm *ChanTimer) poll() {
 	if tm.expired {
 		tm.expired = false
@@ -175,12 +193,15 @@ func (tm *ChanTimer) poll() {
 	}
 }
 
+//go:norace
 func (tm *ChanTimer) live() bool {
 	r := rt
 	return r != nil && !r.aborting && tm.epoch == r.epoch
 }
 
 // Stop mirrors time.Timer.Stop for both timer-channel semantics.
+//
+//go:norace
 func (tm *ChanTimer) Stop() bool {
 	if !tm.live() {
 		return false
@@ -203,6 +224,8 @@ func (tm *ChanTimer) Stop() bool {
 }
 
 // Reset mirrors time.Timer.Reset.
+//
+//go:norace
 func (tm *ChanTimer) Reset(d time.Duration) bool {
 	if !tm.live() {
 		return false
@@ -226,6 +249,8 @@ func (tm *ChanTimer) Reset(d time.Duration) bool {
 }
 
 // Sleep blocks the calling thread for d of virtual time.
+//
+//go:norace
 func Sleep(d time.Duration) {
 	r := rt
 	if r == nil {
@@ -256,6 +281,7 @@ type Ticker struct {
 	epoch  uint64
 }
 
+//go:norace
 func NewTicker(d time.Duration) *Ticker {
 	if d <= 0 {
 		panic("non-positive interval for NewTicker")
@@ -274,6 +300,7 @@ func NewTicker(d time.Duration) *Ticker {
 	return tk
 }
 
+//go:norace
 func (tk *Ticker) Stop() {
 	if rt == nil || rt.aborting || tk.epoch != rt.epoch {
 		return
@@ -282,6 +309,7 @@ func (tk *Ticker) Stop() {
 	tk.t.armed = false
 }
 
+//go:norace
 func (tk *Ticker) Reset(d time.Duration) {
 	if rt == nil || rt.aborting || tk.epoch != rt.epoch {
 		return
